@@ -139,9 +139,12 @@ fn evaluate_do_block_expr(
             source.clone(),
         )?;
 
-        // Name the lambda after its first binding (the name is its self-reference; a later
-        // binding of the same function value must not change what the body sees)
-        if let Value::Lambda(lambda_ptr) = val {
+        // A lambda written as the value of the binding is named after it (the name is its
+        // self-reference). A function value that merely flows through a binding - an alias, an
+        // element of a list, the result of a call - keeps what it is.
+        if let Value::Lambda(lambda_ptr) = val
+            && matches!(value.node, Expr::Lambda { .. })
+        {
             let mut borrowed_heap = heap.borrow_mut();
             if let Some(HeapValue::Lambda(lambda_def)) = borrowed_heap.get_mut(lambda_ptr.index())
                 && lambda_def.name.is_none()
@@ -416,8 +419,10 @@ pub fn evaluate_ast(
                 ));
             }
 
-            // Name the lambda after its first binding only
-            if let Value::Lambda(lambda_ptr) = val {
+            // Name a lambda written as the value of the binding (see evaluate_do_block_expr)
+            if let Value::Lambda(lambda_ptr) = val
+                && matches!(value.node, Expr::Lambda { .. })
+            {
                 let mut borrowed_heap = heap.borrow_mut();
                 if let Some(HeapValue::Lambda(lambda_def)) =
                     borrowed_heap.get_mut(lambda_ptr.index())
